@@ -153,7 +153,13 @@ func (c08) Check(ctx *core.Ctx, c *core.Case) {
 					if v&2 != 0 {
 						sr.Chunk = func(int) int { return 1 }
 					}
-					if !judge(fmt.Sprintf("fault at %d withData=%v onebyte=%v", k, v&1 == 1, v&2 != 0), sr, want, e) {
+					// what the reader would do if it were called again after its error: repeat it,
+					// say io.EOF, or go on delivering data. The parser has to latch the error
+					// itself (seeded change C08-k: the latch dropped when data came with the error).
+					after := int((c.Index + uint64(k) + uint64(v)) % 3)
+					sr.EOFAfterFail, sr.ContinueAfterFail = after == 1, after == 2
+					ctx.Inc(fmt.Sprintf("fault_reader_afterwards:%s", []string{"repeats-error", "says-EOF", "resumes"}[after]))
+					if !judge(fmt.Sprintf("fault at %d withData=%v onebyte=%v afterwards=%d", k, v&1 == 1, v&2 != 0, after), sr, want, e) {
 						return
 					}
 					ctx.Inc("fault_points")
@@ -203,7 +209,10 @@ func (c08) Check(ctx *core.Ctx, c *core.Case) {
 			}
 			name, chunk, zeros, _ := scheduleChunk([]int{0, 1, 5, 9}[rnd.Intn(4)], rnd, b)
 			sr := &SchedReader{Data: b, Chunk: chunk, Zeros: zeros, FailAt: k, FailErr: e, FailWithData: rnd.Bool()}
-			if !judge(fmt.Sprintf("fault at %d (%s)", k, name), sr, want, e) {
+			after := rnd.Intn(3)
+			sr.EOFAfterFail, sr.ContinueAfterFail = after == 1, after == 2
+			ctx.Inc(fmt.Sprintf("fault_reader_afterwards:%s", []string{"repeats-error", "says-EOF", "resumes"}[after]))
+			if !judge(fmt.Sprintf("fault at %d (%s) afterwards=%d", k, name, after), sr, want, e) {
 				return
 			}
 			ctx.Inc("fault_points")
